@@ -115,6 +115,7 @@ def make_session(r, i):
 
 def run(chk):
     pipefam.standard_obligations(chk, "C08.v")
+    pipefam.overlap_unit(chk, chk.rng("overlap_unit"))
     n = 24 if chk.tier == "quick" else 400
     r = chk.rng("cases")
     sessions = [make_session(r, i) for i in range(n)]
